@@ -12,7 +12,12 @@ for d in sorted(glob.glob("/verif/seeded/*")):
     for pid, r in sorted(det.items()):
         if r.get("exit") == 1:
             first = r.get("first", "")
-            how = "obligation " + first.split("obligation=")[1].split()[0] if "obligation=" in first else ("bounded " + first.split("bounded-check=")[1].split()[0] if "bounded-check=" in first else "?")
+            if "obligations" in r:
+                parts = (["obligation " + o for o in r["obligations"][:1]] + ["bounded " + ", ".join(r["bounded"])] * bool(r["bounded"])
+                         + ["(contract not established: restructured)"] * bool(r["not_established"]))
+                how = "; ".join(parts) or "?"
+            else:
+                how = "obligation " + first.split("obligation=")[1].split()[0] if "obligation=" in first else ("bounded " + first.split("bounded-check=")[1].split()[0] if "bounded-check=" in first else "?")
             hits.append(f"{pid}: {how}")
     miss = [pid for pid, r in sorted(det.items()) if r.get("exit") == 0]
     rows.append((os.path.basename(d), m.get("property"), (m.get("needs") or "")[:140].replace("|", "/").replace("\n", " "), "; ".join(hits) or "NOT DETECTED", ", ".join(miss)))
